@@ -8,6 +8,7 @@
    true = the code (model/DecTree.v: tree_fields_fx, tree_escape_fx), false = the earlier code.  Unquote / Quote / time.Format are universally
    quantified parameters; go_unquote is the concrete model of strconv.Unquote. *)
 From LR Require Import lib.Base lib.DecLib model.DecTree model.DecXBinary model.DecKV model.DecFields model.DecUtf8 model.DecUnquote model.DecWire model.DecPos model.Json model.Formatter model.DecLqlTime.
+From LR Require Import model.DecAdmin proofs.DecAdminP.
 From LR Require Import proofs.DecXBinaryP proofs.DecKVP proofs.DecFieldsP proofs.DecWireP proofs.DecPosP proofs.JsonP proofs.FormatterP proofs.DecStoredP proofs.DecLqlTimeP.
 
 (* ------------------------------------------------------------------ the varint / bytes decoder *)
@@ -299,3 +300,25 @@ Proof. repeat split; vm_compute; reflexivity. Qed.
 Example C13_ex_escape : escape_json [x61; x22; x0a; x01; xc3; xa9; x80; xef; xbf; xbd] =
   Ok [x22; x61; x5c; x22; x5c; x6e; x5c; x75; x30; x30; x30; x31; xc3; xa9; x5c; x75; x66; x66; x66; x64; xef; xbf; xbd; x22].
 Proof. vm_compute. reflexivity. Qed.
+
+(* ---- statements executed by the admin path: SHOW PARTITIONS [OFFSET o] [LIMIT l] ----
+   The LQL parser accepts any int64 (also negative) for OFFSET and LIMIT; Service.Partitions pages the matching
+   partitions with them (model/DecAdmin.v).  For every number of partitions and every pair of numbers the code answers
+   with a page or an error ... *)
+Theorem C13_total_show_partitions : forall n offset limit,
+  parts_page code_guards_paging n offset limit <> Panic /\ parts_page code_guards_paging n offset limit <> OutOfFuel.
+Proof. exact parts_page_total. Qed.
+Print Assumptions C13_total_show_partitions.
+
+(* ... and for admissible numbers the page is what OFFSET / LIMIT mean (at most 1000 entries) *)
+Theorem C13_show_partitions_page : forall (A : Type) (parts : list A) offset limit, (0 <= offset)%Z -> (0 <= limit)%Z ->
+  parts_page code_guards_paging (length parts) offset limit =
+  Ok (length (firstn (Z.to_nat (Z.min limit 1000)) (skipn (Z.to_nat offset) parts))).
+Proof. exact parts_page_meaning. Qed.
+Print Assumptions C13_show_partitions_page.
+
+(* before the repair (no test for negative numbers): SHOW PARTITIONS OFFSET -1 and LIMIT -5 killed the server *)
+Theorem C13_total_show_partitions_unguarded_refuted :
+  ~ (forall n offset limit, parts_page false n offset limit <> Panic).
+Proof. intros H. apply (H 1%nat (-1)%Z 4294967295%Z). exact (proj1 parts_page_unguarded_panics). Qed.
+Print Assumptions C13_total_show_partitions_unguarded_refuted.
